@@ -219,7 +219,8 @@ def summarize(data, harnesses):
     for r in data.get("verification_results", {}).get("results", []):
         hid = r["harness_id"]
         checks = r.get("checks", [])
-        failed = [c for c in checks if c.get("status") not in ("Success", "Unreachable", "Satisfied", "Covered")]
+        failed = [c for c in checks if c.get("status") == "Failure"]
+        undecided = [c for c in checks if c.get("status") not in ("Success", "Unreachable", "Satisfied", "Covered", "Failure", "Unsatisfiable", "Uncovered")]
         covers = [c for c in checks if c.get("category") == "cover" or "cover" in (c.get("property_class") or "")]
         funcs = {}
         repo_checks = 0
@@ -241,6 +242,7 @@ def summarize(data, harnesses):
             "duration_ms": r.get("duration_ms"),
             "checks": checks,
             "failed": failed,
+            "undecided": len(undecided),
             "funcs": funcs,
             "repo_checks": repo_checks,
             "repo_locs": repo_locs,
@@ -257,8 +259,13 @@ def classify(h, r):
     if r is None:
         return "inconclusive", "no result for harness (compile error, timeout or crash)"
     pd = r["props"]
-    if pd.get("undetermined", 0) or pd.get("solver_error", 0):
-        return "inconclusive", "undetermined/solver error checks"
+    er = r.get("errors") or {}
+    if er.get("exit_status") in ("out_of_memory", "timeout"):
+        return "inconclusive", "CBMC %s" % er.get("exit_status")
+    if pd.get("total_properties") is None:
+        return "inconclusive", "no property details (%s)" % (er.get("exit_status") or pd.get("error"))
+    if pd.get("undetermined", 0) or pd.get("solver_error", 0) or r.get("undecided"):
+        return "inconclusive", "undetermined/solver-error checks (memory or time limit hit inside CBMC)"
     if r["failed"]:
         descs = sorted({(c.get("description") or "") for c in r["failed"]})
         only_unwind = all("unwinding assertion" in d for d in descs)
@@ -368,9 +375,9 @@ def write_evidence(prop, tier, seed, harnesses, results, verdicts, wall, violati
             entry["isolates_finding"] = h.finding
         if r:
             pd = r["props"]
-            obligations += pd.get("total_properties", 0)
-            discharged += pd.get("passed", 0) + pd.get("unreachable", 0) + pd.get("satisfied", 0)
-            covers_sat += pd.get("satisfied", 0)
+            obligations += pd.get("total_properties") or 0
+            discharged += (pd.get("passed") or 0) + (pd.get("unreachable") or 0) + (pd.get("satisfied") or 0)
+            covers_sat += pd.get("satisfied") or 0
             cs = r["cbmc"]
             steps += int(cs.get("size_program_expression") or 0)
             vccs += int(cs.get("vccs_generated") or 0)
